@@ -306,9 +306,17 @@ struct Run {
 }
 
 fn run(spec: &Value, input: &[Frame], parts: &[usize], sr: u32, bs: usize, info: &Info) -> Result<Run, String> {
+	run_from(spec, input, parts, sr, sr, bs, info)
+}
+
+/// as `run`, but the effect is initialised at `sr0` and then told that the device rate is `sr`
+fn run_from(spec: &Value, input: &[Frame], parts: &[usize], sr0: u32, sr: u32, bs: usize, info: &Info) -> Result<Run, String> {
 	guarded(|| {
 		let mut fx = build(spec);
-		fx.init(sr, bs);
+		fx.init(sr0, bs);
+		if sr0 != sr {
+			fx.on_change_sample_rate(sr);
+		}
 		let dt = 1.0 / sr as f64;
 		let mut buf = input.to_vec();
 		let mut at = 0;
@@ -432,6 +440,21 @@ fn run_law(sc: &Value, tr: &mut Tracer, info: &Info) {
 							"wy": window(&r.out, 1.0)})
 					}
 				}
+			}
+			// finite (and without a panic) also when the effect was built at another device rate and told the new one
+			"finite_after_rate_change" => {
+				let mut worst: Option<Value> = None;
+				for sr0 in [sr / 8, sr * 4] {
+					let ev = match run_from(fx, &a, &p1, sr0.max(1), sr, bs, info) {
+						Err(m) => panicked("finite", n, &m),
+						Ok(r) => json!({"a": "finite", "n": n, "p": false, "nf": nonfinite(&r.out), "calls": r.calls,
+							"pk": clampi((peak(&[&r.out]) * 1000.0).ceil())}),
+					};
+					if worst.is_none() || ev["p"] == true || ev["nf"].as_u64().unwrap_or(0) > 0 {
+						worst = Some(ev);
+					}
+				}
+				worst.unwrap()
 			}
 			"finite" => match &ta {
 				Err(m) => panicked("finite", n, m),
